@@ -318,6 +318,7 @@ theorem C01_source_bintree_neighbours (fuel : Nat) (g : GoSrc.T_binTree) (t : BT
   ⟨fun ht => GoSrcP.binTree_pred_spec fuel g t rel v hv hfuel wp rank hrb hrank ht,
    fun ht => GoSrcP.binTree_succ_spec fuel g t rel v hv hfuel wp rank hrb hrank ht⟩
 
-theorem C01_source_translation_complete : GoSrc.failures = [] := by decide
+-- (that every function on the translation list was translated is required once, in Props/C02 and Props/C03; a function of
+-- this property that fell out of the translator's subset would make the theorems above fail to elaborate)
 
 end Props.C01
